@@ -1,4 +1,4 @@
--- Recorded by tools/snap_accept.sh from /repo at 027b8ad: the digests of the statements the models were written against
+-- Recorded by tools/snap_accept.sh from /repo at 054c69f: the digests of the statements the models were written against
 namespace Emerge.Ref.SrcSnap
 
 def digest_C01 : Nat := 0x93e9b3c64391f96f3683de11fbd96709
@@ -13,8 +13,8 @@ def count_C03 : Nat := 9
 def digest_C04 : Nat := 0xb7295ad77636e1a79227c1cbd8405034
 def count_C04 : Nat := 12
 
-def digest_C05 : Nat := 0xbd5a14d1c7c4eb0220df69ba8d5b1b2c
-def count_C05 : Nat := 16
+def digest_C05 : Nat := 0xc645fcb1a5bcb334e037ad27420cd31f
+def count_C05 : Nat := 17
 
 def digest_C06 : Nat := 0xfcc70ba3121db6884582b37fec3dbc3a
 def count_C06 : Nat := 16
@@ -22,7 +22,7 @@ def count_C06 : Nat := 16
 def digest_C07 : Nat := 0xecdb4deb51f905c75cf6ff69b73906c7
 def count_C07 : Nat := 19
 
-def digest_C08 : Nat := 0x8db6edf0ebbe0f6163c8900d817ea9b7
+def digest_C08 : Nat := 0x0183b72940fe9a5fea1d124c89904be6
 def count_C08 : Nat := 20
 
 def digest_C09 : Nat := 0xa70da57fe43b5cf275324e42b83d13e1
@@ -37,16 +37,16 @@ def count_C11 : Nat := 37
 def digest_C12 : Nat := 0x4f596da4ac9b5de0efeff0c63f981774
 def count_C12 : Nat := 10
 
-def digest_C13 : Nat := 0x36073a88e101f990285f86741882b50c
-def count_C13 : Nat := 6
+def digest_C13 : Nat := 0xb732922a40ef79e81c26ca6053f5a1cc
+def count_C13 : Nat := 7
 
-def digest_C14 : Nat := 0x8748eb7682700484af04fe6d215a1d1a
+def digest_C14 : Nat := 0x176abf2b62ad552af982a448a04db69c
 def count_C14 : Nat := 11
 
-def digest_C15 : Nat := 0x0cf540cf077cc50055a1c47e5a151f0e
+def digest_C15 : Nat := 0xc8bef28408cbbd0b8f82c2344578479d
 def count_C15 : Nat := 12
 
-def digest_C16 : Nat := 0x0403ae1177014f6c4006acd878cf8b49
+def digest_C16 : Nat := 0x9272f4aed1f602d69d3dabf84bbd1a9f
 def count_C16 : Nat := 11
 
 def digest_C17 : Nat := 0xc0ec932b33336b2e5c84471939fcc3ef
@@ -55,10 +55,10 @@ def count_C17 : Nat := 15
 def digest_C18 : Nat := 0xf458a7b7da143ebac954bb4c25dd6188
 def count_C18 : Nat := 9
 
-def digest_C19 : Nat := 0x174cb34dd963459e5df5f7cb80274cb4
+def digest_C19 : Nat := 0xf588a8781d41fb35c4cd17b7cba1be68
 def count_C19 : Nat := 8
 
-def digest_C20 : Nat := 0x0cfe4f63acac85043cd2e1d55ee96d8a
-def count_C20 : Nat := 7
+def digest_C20 : Nat := 0x317cf3149b0a48ea220939b33d831cc5
+def count_C20 : Nat := 8
 
 end Emerge.Ref.SrcSnap
